@@ -481,6 +481,117 @@ func genOtlp(r *rand.Rand, c *Case) {
 	}
 }
 
+func reserved(i int) bool {
+	return i%200 == 3 || i%400 == 9 || i%1000 == 501 || i%100 == 51 || i%40 == 2
+}
+
+// genHistory draws a HISTORY: 2..5 bodies decoded one after another in this process (same parser objects, and for
+// half of the histories one shared announcement cache). The bodies are built over a pool of streams that keeps
+// growing: known streams come back in other orders and adjacencies, new streams (label strings never seen before
+// in the process) are inserted directly after known ones. Every step is checked against the model of that body alone.
+func genHistory(r *rand.Rand, start int, n int) []Case {
+	steps := 2 + r.Intn(4)
+	for k := 0; k < steps; k++ {
+		if start+k >= n || reserved(start+k) {
+			steps = k
+			break
+		}
+	}
+	if steps < 2 {
+		return nil
+	}
+	hid := start + 1
+	mode := r.Intn(8) // 0-2: Loki protobuf only; 3,4: Loki JSON only; 5: remote write only; 6,7: mixed protocols
+	shared := r.Intn(2) == 0
+	fresh := 0
+	newStream := func() []KV {
+		fresh++
+		l := []KV{{"hist", Str(fmt.Sprintf("h%d", hid))}, {"app", Str(fmt.Sprintf("s%d", fresh))}}
+		for j := r.Intn(3); j > 0; j-- {
+			k := pick(r, []string{"env", "pod", "level", "job"})
+			dup := false
+			for _, x := range l {
+				if string(x.K) == k {
+					dup = true
+				}
+			}
+			if !dup {
+				l = append(l, KV{Str(k), Str(pick(r, []string{"prod", "dev", "a", "b-1", "x y"}))})
+			}
+		}
+		return l
+	}
+	pool := [][]KV{newStream()}
+	if r.Intn(2) == 0 {
+		pool = append(pool, newStream())
+	}
+	var out []Case
+	for k := 0; k < steps; k++ {
+		c := Case{ID: start + k, WSeed: r.Int63(), Hist: hid, Step: k + 1, Class: "history"}
+		if shared {
+			c.Cache = "shared"
+		} else if r.Intn(3) == 0 {
+			c.Cache = "set"
+		}
+		// the streams of this body: known ones in a random order, new ones inserted directly after a known one
+		perm := r.Perm(len(pool))
+		cnt := 1 + r.Intn(len(pool))
+		var seq [][]KV
+		for _, idx := range perm[:cnt] {
+			seq = append(seq, pool[idx])
+			if k > 0 && r.Intn(2) == 0 {
+				ns := newStream()
+				seq = append(seq, ns)
+				pool = append(pool, ns)
+			}
+		}
+		proto := "loki_pb"
+		switch {
+		case mode <= 2:
+		case mode <= 4:
+			proto = "loki_json"
+		case mode == 5:
+			proto = "prw"
+		default:
+			proto = pick(r, []string{"loki_pb", "loki_pb", "loki_json", "prw", "otlp", "ddlog", "influx", "ddmet"})
+		}
+		c.Proto = proto
+		switch proto {
+		case "loki_pb", "loki_json":
+			for _, l := range seq {
+				c.Body.Loki = append(c.Body.Loki, LStream{Labels: append([]KV{}, l...), Entries: genLokiEntries(r, 1+r.Intn(3), 0, proto == "loki_pb")})
+			}
+		case "prw":
+			for _, l := range seq {
+				s := PSeries{Labels: append([]KV{{"__name__", "up"}}, l...), Samples: []PSample{}}
+				t := int64(1700000000000) + r.Int63n(1000000)
+				for j := 1 + r.Intn(3); j > 0; j-- {
+					t += int64(r.Intn(60000))
+					s.Samples = append(s.Samples, PSample{TsMs: t, Val: genFloat(r)})
+				}
+				c.Body.Prw = append(c.Body.Prw, s)
+			}
+		case "otlp":
+			genOtlp(r, &c)
+		case "ddlog":
+			genDDLog(r, &c)
+		case "influx":
+			genInflux(r, &c)
+		case "ddmet":
+			genDDMet(r, &c)
+		}
+		c.Class = "history"
+		if shared {
+			c.Class += "+shared-cache"
+		}
+		if mode >= 6 {
+			c.Class += "+mixed-protocols"
+		}
+		out = append(out, c)
+	}
+	return out
+}
+
 // gen draws case number i. A few indices are reserved for the bodies that cross the two flush
 // thresholds (1000 points in remote write, 1 MiB in onEntries) so that every run contains them.
 func gen(r *rand.Rand, i int) Case {
